@@ -138,13 +138,7 @@ type runner struct {
 func (r *runner) write(_ context.Context, msgs ...kafka.Message) error {
 	b := make([]wev, 0, len(msgs))
 	for _, m := range msgs {
-		var e pb.Event
-		if err := proto.Unmarshal(m.Value, &e); err != nil {
-			r.bad.Store("unmarshal: " + err.Error())
-			continue
-		}
-		n := e.GetTimestampNano()
-		b = append(b, wev{int(n >> 32), int(n & 0xffffffff), keyCode(m.Key)})
+		b = append(b, decodeMsg(r, m))
 	}
 	r.mu.Lock()
 	idx := r.calls
@@ -174,6 +168,29 @@ func (r *runner) write(_ context.Context, msgs ...kafka.Message) error {
 	r.inflight--
 	r.mu.Unlock()
 	return nil
+}
+
+// notAnEvent is what the observation shows for a message the write function was handed that does not decode as
+// an event: every message the harness publishes goes through the real writer's proto.Marshal, so bytes that do
+// not decode (or that make the decoder panic: a slice header torn by unsynchronised access to the buffer) were
+// produced by the code under test, not by the harness. Producer 9999 does not exist: Spec.C19 rejects it
+// ("delivered something nobody published").
+var notAnEvent = wev{9999, 0, 9999}
+
+func decodeMsg(r *runner, m kafka.Message) (w wev) {
+	defer func() {
+		if x := recover(); x != nil {
+			r.bad.Store(fmt.Sprintf("decoding panicked: %v", x))
+			w = notAnEvent
+		}
+	}()
+	var e pb.Event
+	if err := proto.Unmarshal(m.Value, &e); err != nil {
+		r.bad.Store("unmarshal: " + err.Error())
+		return notAnEvent
+	}
+	n := e.GetTimestampNano()
+	return wev{int(n >> 32), int(n & 0xffffffff), keyCode(m.Key)}
 }
 
 func spin(n int) {
@@ -548,9 +565,6 @@ func runImpl(input string) (string, error) {
 	close(stopRel)
 	if err != nil {
 		return "", err
-	}
-	if s, ok := r.bad.Load().(string); ok {
-		return "", fmt.Errorf("harness could not decode a message: %s", s)
 	}
 	cl, _, bl, _ := r.w.VerifSnapshot()
 	r.mu.Lock()
